@@ -381,6 +381,9 @@ impl<'a> RuleCtx<'a> {
       .filter(|n| n.is_named() && !n.is_error() && !n.is_missing())
       .map(|n| n.kind().to_string())
       .collect();
+    // `kind: ERROR` is a legal rule (tree-sitter's built-in kind, id 65535): it must match the
+    // ERROR nodes of a source with syntax errors and nothing else
+    kinds.push("ERROR".to_string());
     kinds.sort();
     kinds.dedup();
     // fields that never label two children of one node in this source
